@@ -36,7 +36,7 @@ static void any_state (void)
 	shm_exists = nondet_bool (); shm_id = 0; shm_size = nondet_size_t (); g_shm_next_id = 0; g_orphan_size = 0;
 	g_fd_live = 0; g_map_live = 0; g_shm_key = NULL;
 	g_shm_opens = g_shm_creates = g_fd_closes = g_truncs = g_fstats = g_maps = g_unmaps = g_shm_unlinks = 0; g_shm_other_error = 0;
-	ns_exists = nondet_bool (); ns_id = 0; ns_value = nondet_uint (); g_next_id = 0; g_hdl_open = 0; hdl_id = 0; g_key = NULL; g_env_active = 0;
+	ns_exists = nondet_bool (); ns_id = 0; ns_value = nondet_uint (); g_next_id = 0; g_hdl_open = 0; hdl_id = 0; g_key = NULL; g_env_active = 0; g_peer_opener = 0; g_peer_holds = 0; g_peer_id = 0;
 	g_sem_opens = g_sem_closes = g_sem_unlinks = g_sem_waits_ok = g_sem_posts_ok = g_sem_creates = 0; g_sem_other_error = 0;
 	g_err_calls = 0; g_allocs = g_frees = 0; g_alloc_failed = 0; g_key_calls = 0; g_buf = NULL;
 	_Bool faults = nondet_bool (); g_shm_no_other_errors = !faults; g_sem_no_other_errors = !faults;
@@ -180,4 +180,36 @@ void h_lemma_recovery (void)
 	PShm *t = p_shm_new (name, size2, perms, NULL);
 	OBL (t != NULL && t->size == size2 && shm_exists && shm_id != 0 && shm_size == size2 && ns_exists && ns_value == 1, "next p_shm_new: fresh segment of the newly requested size, fresh lock with one unit");
 	CANARY ("end");
+}
+
+/* ---- first-open race: this process creates the segment; a second process opens the same name as soon as the segment
+ * exists and opens (creating it if missing) the lock semaphore at ANY point between this process's semaphore system calls.
+ * "p_shm_lock/p_shm_unlock behave as one system-wide mutex per name, also when several processes open the name for the
+ * first time concurrently": both handles must end up on the same counter. */
+void h_new_first_open_race (void)
+{
+	char name[1]; psize size; PShmAccessPerms perms;
+	g_str = name; g_str_len = nondet_size_t (); __CPROVER_assume (g_str_len < ((size_t) 1 << 32));
+	__CPROVER_assume (size > 0 && size <= MAXSZ);
+	__CPROVER_assume (perms == P_SHM_ACCESS_READONLY || perms == P_SHM_ACCESS_READWRITE);
+	any_state ();
+	__CPROVER_assume (!shm_exists);            /* this process is the creator */
+	g_alloc_may_fail = 0; g_shm_no_other_errors = 1; g_sem_no_other_errors = 1;   /* no faults: the race alone */
+#ifdef KF_EXCLUDE_C07_FIRST_OPEN_LOCK_SPLIT
+	g_peer_opener = 0;                          /* nobody else around: the creator alone */
+#else
+	g_peer_opener = 1;
+#endif
+	PShm *s = p_shm_new (name, size, perms, NULL);
+	OBL (s != NULL, "without faults the creator succeeds, whatever the peer does");
+	if (s == NULL) return;
+	OBL (g_hdl_open && ns_exists && hdl_id == ns_id, "the creator's lock handle is bound to the counter the lock name denotes");
+#ifdef KF_ONLY_C07_FIRST_OPEN_LOCK_SPLIT
+	__CPROVER_assume (g_peer_holds);
+#endif
+	OBL (!g_peer_holds || g_peer_id == hdl_id, "first-open race: every handle of the name is bound to the same lock counter (one system-wide mutex per name)");
+#ifndef KF_EXCLUDE_C07_FIRST_OPEN_LOCK_SPLIT
+	if (g_peer_holds) CANARY ("a peer opened the lock during the call");
+#endif
+	if (!g_peer_holds) CANARY ("creator alone");
 }
